@@ -276,8 +276,61 @@ static void asynctask_case(const Case &c, pbt::Ctx &ctx)
   ctx.label("asynctask-action-" + std::to_string(action));
 }
 
-template <template <class> class F>
-struct Dispatch;
+// ---------------------------------------------------------------- wake-up rounds
+// schedule() issued at generated delays after the previous task finished, i.e. around the moment the worker(s)
+// go to sleep.  Every task must run although the caller does nothing but poll.  A stall is a LOST WAKE-UP (not
+// slowness) when the task is still not executed after 2 s of idling and then runs promptly once the caller
+// schedules something else.
+struct WakeCase
+{
+  int threads = 2;
+  int rounds = 1000;
+  int maxDelayUs = 60;
+  int viaAsync = 0;
+  auto tie() { return std::tie(threads, rounds, maxDelayUs, viaAsync); }
+};
+static void wakeup_rounds(const WakeCase &c, pbt::Ctx &ctx)
+{
+  const int threads = std::max(1, c.threads);
+  initTaskingSystem(threads);
+  g_threads = threads;
+  auto ran = std::make_shared<std::atomic<long>>(0);  // shared: a stranded task may run after the case
+  const int rounds = std::max(1, c.rounds);
+  const int span = std::max(1, c.maxDelayUs) * 1000;  // ns
+  for (int r = 0; r < rounds; ++r) {
+    long before = ran->load();
+    if (c.viaAsync) {
+      auto f = async([ran]() -> int {
+        ran->fetch_add(1);
+        return 1;
+      });
+      (void)f;  // dropped: the task must run anyway
+    } else
+      schedule([ran]() { ran->fetch_add(1); });
+    // busy polling (no sleeps): the caller's timing must stay fine-grained for the sweep below
+    bool done = false;
+    {
+      auto t0 = std::chrono::steady_clock::now();
+      while (!(done = ran->load() > before) && std::chrono::steady_clock::now() - t0 < std::chrono::seconds(2)) {
+      }
+    }
+    if (!done) {
+      // not executed after 2 s without caller action: kick the scheduler and see whether it runs then
+      auto kicked = std::make_shared<std::atomic<int>>(0);
+      schedule([kicked]() { kicked->fetch_add(1); });
+      bool after = waitUntil([&] { return ran->load() > before; }, 5.0);
+      PBT_FAIL("round " << r << " of " << rounds << " with " << threads << " tasking threads: a scheduled function was not executed within 2 s while the caller only polled"
+                        << (after ? "; it ran as soon as the caller scheduled another task (lost wake-up)" : " and not even after another task was scheduled"));
+    }
+    // sweep the delay so that the next schedule() lands around the time the worker goes to sleep
+    long ns = ((long)r * 37) % span;
+    auto t0 = std::chrono::steady_clock::now();
+    while (std::chrono::steady_clock::now() - t0 < std::chrono::nanoseconds(ns)) {
+    }
+  }
+  ctx.nt(THREADED && threads >= 2 && rounds >= 100);
+  ctx.label("wakeup-rounds-threads=" + std::to_string(threads));
+}
 
 static void run_case(const Case &c, pbt::Ctx &ctx)
 {
@@ -334,5 +387,12 @@ static rc::Gen<Case> genCase()
 static void register_properties()
 {
   pbt::property<Case>("tasks", 500, genCase(), run_case);
+  using namespace rc;
+  auto wc = gen::build<WakeCase>(gen::set(&WakeCase::threads, gen::weightedElement<int>({{4, 2}, {1, 1}, {1, 3}, {1, 4}})), gen::set(&WakeCase::rounds, pbt::range<int>(2000, 20000)),
+      gen::set(&WakeCase::maxDelayUs, gen::element<int>(5, 20, 60, 200)), gen::set(&WakeCase::viaAsync, pbt::range<int>(0, 1)));
+  pbt::property<WakeCase>("wakeup_rounds", 12, wc, wakeup_rounds);
 }
-PBT_MAIN("C02_tasks_" BACKEND)
+#ifndef C02_BIN
+#define C02_BIN "C02_tasks_" BACKEND
+#endif
+PBT_MAIN(C02_BIN)
